@@ -14,6 +14,7 @@ import (
 	"time"
 
 	"github.com/samaritan-proxy/samaritan/host"
+	pbredis "github.com/samaritan-proxy/samaritan/pb/config/protocol/redis"
 	predis "github.com/samaritan-proxy/samaritan/proc/redis"
 
 	"verifharness/internal/cli"
@@ -56,6 +57,7 @@ type upResult struct {
 	Extra     map[string]int    `json:"extra"`   // request -> number of additional replies
 	Compl     map[string]int    `json:"compl"`   // SetResponse calls per request
 	Lost      []string          `json:"lost"`    // requests never answered (connection open)
+	Misdirected []string        `json:"misdirected,omitempty"` // requests that got a reply which is neither an error nor the value of their own key
 	Closed    []string          `json:"closed,omitempty"` // requests whose downstream connection was closed by the proxy
 	Double    []string          `json:"double"`  // requests completed more than once
 	StopHung  bool              `json:"stopHung"`
@@ -92,6 +94,9 @@ type upTracker struct {
 	reqNames map[string]string
 }
 
+func isBanned(r string) bool { return strings.HasPrefix(r, "b") }
+func isAsk(r string) bool    { return strings.HasPrefix(r, "a") }
+
 var replaySeq int64
 
 func newUpTracker(target string) *upTracker {
@@ -116,6 +121,7 @@ var upGateNames = map[string]string{
 	"client.Send.enqueued":     "client.Send.enqueued",
 	"client.loopWrite.select":  "client.loopWrite.select",
 	"client.loopWrite.got":     "client.loopWrite.got",
+	"client.loopWrite.filtered": "client.loopWrite.filtered",
 	"client.loopWrite.asked":   "client.loopWrite.asked",
 	"client.loopWrite.handoff": "client.loopWrite.handoff",
 	"client.loopRead.decode":   "client.loopRead.decode",
@@ -136,7 +142,7 @@ var upGateNames = map[string]string{
 func (t *upTracker) key(point string, a, b interface{}) string {
 	if point == "simpleRequest.SetResponse" {
 		d := predis.VerifDescribe(a)
-		if len(d.Args) >= 2 && strings.EqualFold(d.Args[0], "get") {
+		if len(d.Args) >= 2 && (strings.EqualFold(d.Args[0], "get") || strings.EqualFold(d.Args[0], "getrange")) {
 			if name := t.nameOf(d.Args[1]); name != "" {
 				t.mu.Lock()
 				t.compl[name]++
@@ -225,7 +231,7 @@ func (t *upTracker) state() (predis.VerifClientState, bool) {
 
 var upAllGates = []string{
 	"client.Send", "client.Send.checked", "client.Send.enqueued",
-	"client.loopWrite.select", "client.loopWrite.got", "client.loopWrite.asked", "client.loopWrite.handoff",
+	"client.loopWrite.select", "client.loopWrite.got", "client.loopWrite.filtered", "client.loopWrite.asked", "client.loopWrite.handoff",
 	"client.loopRead.decode", "client.loopRead.decoded", "client.loopRead.paired",
 	"client.Start.readDone", "client.Start.quitClosed", "client.Start.drained",
 	"client.drain.select", "client.drain.answer",
@@ -256,13 +262,18 @@ func newUpEnv() (*upEnv, error) {
 	cl.SetOwner(0, 1)
 	for _, k := range askKeys {
 		slot := simredis.Slot([]byte(k))
-		for _, other := range []string{"r1", "r2", "r3", "warm1", "warm2"} {
+		for _, other := range []string{"r1", "r2", "r3", "b1", "b2", "b3", "warm1", "warm2"} {
 			if simredis.Slot([]byte(other)) == slot {
 				return nil, fmt.Errorf("key %s shares slot %d with %s", k, slot, other)
 			}
 		}
 		cl.SetOwner(slot, 1)
 		cl.SetMigrating(slot, 1, 0)
+	}
+	for _, k := range []string{"r1", "r2", "r3", "b1", "b2", "b3", "warm1", "warm2"} {
+		if cl.Owner(simredis.Slot([]byte(k))) != 0 {
+			return nil, fmt.Errorf("key %s is not served by the node under test", k)
+		}
 	}
 	return &upEnv{cl: cl, a: cl.Nodes[0], b: cl.Nodes[1]}, nil
 }
@@ -280,7 +291,14 @@ func (e *upEnv) replayOne(id int, steps []upStep, reqs []string) (res upResult) 
 	sc.Install()
 	defer sc.Uninstall()
 
-	px, err := sut.StartRedis(sut.RedisOpts{}, []string{e.b.Addr})
+	// requests named b* are commands that the compress filter answers itself (GETRANGE with compression enabled)
+	opts := sut.RedisOpts{}
+	for _, r := range reqs {
+		if isBanned(r) {
+			opts.Compression = &pbredis.Compression{Enable: true, Threshold: 1024, Algorithm: pbredis.Compression_SNAPPY}
+		}
+	}
+	px, err := sut.StartRedis(opts, []string{e.b.Addr})
 	if err != nil {
 		res.Err = "start: " + err.Error()
 		return
@@ -372,7 +390,17 @@ func (e *upEnv) replayOne(id int, steps []upStep, reqs []string) (res upResult) 
 				return
 			}
 			conns[st.R] = c
-			c.SendCmd("get", tr.keyOf(st.R))
+			// every key holds its own name: a reply that is not an error must be the echo of its own request
+			key := tr.keyOf(st.R)
+			e.cl.Preload(key, []byte(key))
+			if isAsk(st.R) {
+				e.cl.MigrateKey(key) // the key has already moved to the importing node
+			}
+			if isBanned(st.R) {
+				c.SendCmd("getrange", key, "0", "-1")
+			} else {
+				c.SendCmd("get", key)
+			}
 		case "BackendReply":
 			if !e.a.WaitPending(1, stepTimeout) {
 				diverge(i, "backend has no command to answer")
@@ -487,6 +515,9 @@ func (e *upEnv) replayOne(id int, steps []upStep, reqs []string) (res upResult) 
 				return
 			}
 			res.Replies[r] = v.String()
+			if v.Kind != '-' && !(v.Kind == '$' && !v.Null && string(v.Str) == tr.keyOf(r)) {
+				res.Misdirected = append(res.Misdirected, r)
+			}
 			// a second reply for a single request?
 			if _, err := c.Recv(30 * time.Millisecond); err == nil {
 				res.Extra[r]++
@@ -593,11 +624,11 @@ func c02Replay(args []string) error {
 		for a := 1; a <= *attempts; a++ {
 			res = env.replayOne(id, steps, reqs)
 			res.Attempt = a
-			if res.Exact || len(res.Lost) > 0 || len(res.Double) > 0 || res.StopperHung {
+			if res.Exact || len(res.Lost) > 0 || len(res.Double) > 0 || len(res.Misdirected) > 0 || res.StopperHung {
 				break
 			}
 		}
-		if len(res.Lost) > 0 || len(res.Double) > 0 || res.StopperHung {
+		if len(res.Lost) > 0 || len(res.Double) > 0 || len(res.Misdirected) > 0 || res.StopperHung {
 			bad++
 		}
 		return w.Write(res)
